@@ -7,7 +7,7 @@ from . import common as C, lin
 
 PROP = "C19"
 PROPS_FILE = "props/C19.v"
-RULE = ("cases = densities with R in 1..4, D in 1..4, Sigma = L0 L0' for a rational lower-triangular L0 with positive diagonal "
+RULE = ("cases = densities (GaussianPDF and GaussianDiagPDF) with R in 1..4, D in 1..4, Sigma = L0 L0' for a rational lower-triangular L0 with positive diagonal "
         "(strong correlations included: off-diagonal entries up to 3x the diagonal), seeded PRNG keys, n = 4 draws for the "
         "structural comparison; one statistical case per run with n = 40000 draws (supporting only); non-trivial = R*D > 1; "
         "distinct = SHA1 of the input")
@@ -16,28 +16,31 @@ EXPLANATION = ("model Sample.v: x[d,a,:] = mu_a + L_a z[d,a,:] evaluated at Qc o
                "Sigma; vs implementation sample(key, n); oracle: independent numpy Cholesky, reproducibility (same key twice), "
                "component r unchanged when the other components' parameters change; statistical moments within 6 standard "
                "errors (supporting validation, not part of the proof)")
-hist = lambda d: dict(R=d["R"], D=d["D"], n=d["n"], stat=d.get("stat", False))
+hist = lambda d: dict(R=d["R"], D=d["D"], n=d["n"], stat=d.get("stat", False), diag=d.get("diag", False))
 nontrivial = lambda d: d["R"] * d["D"] > 1
 scenario = lambda d: "stat" if d.get("stat") else "structural"
 
 
-def gen_case(g, R, D, n, stat=False):
+def gen_case(g, R, D, n, stat=False, diag=False):
     Ls = []
     for _ in range(R):
         L = [[Fr(0)] * D for _ in range(D)]
         for i in range(D):
             L[i][i] = g.qpos()
             for j in range(i):
-                L[i][j] = g.q(lo=-6, hi=6, dens=(1, 2))
+                L[i][j] = Fr(0) if diag else g.q(lo=-6, hi=6, dens=(1, 2))
         Ls.append(L)
-    return dict(R=R, D=D, n=n, L=Ls, mu=g.mat(R, D), seed=g.randint(0, 2 ** 31 - 1), stat=stat)
+    return dict(R=R, D=D, n=n, L=Ls, mu=g.mat(R, D), seed=g.randint(0, 2 ** 31 - 1), stat=stat, diag=diag)
 
 
 def gen_descs(g, tier):
     q = tier == "quick"
     out = [gen_case(g, R, D, 4) for R in (1, 2, 4) for D in (1, 2, 3, 4) for _ in range(1 if q else 10)]
     out += [gen_case(g, g.randint(1, 4), g.randint(1, 4), 4) for _ in range(10 if q else 200)]
+    # the diagonal density class (GaussianDiagPDF) with component-specific variances
+    out += [gen_case(g, R, D, 4, diag=True) for R in (1, 3) for D in (1, 2, 3) for _ in range(1 if q else 6)]
     out.append(gen_case(g, 2, 3, 40000, stat=True))
+    out.append(gen_case(g, 3, 2, 40000, stat=True, diag=True))
     return [C.J(d) for d in out]
 
 
@@ -75,7 +78,8 @@ def run_impl(d):
     ob = Obs(); fails = []
     R, D, n = d["R"], d["D"], d["n"]
     Sig = [sig_of(L) for L in d["L"]]
-    p = I["pdf"].GaussianPDF(Sigma=jarr(Sig), mu=jarr(d["mu"]))
+    PDF = I["pdf"].GaussianDiagPDF if d.get("diag") else I["pdf"].GaussianPDF
+    p = PDF(Sigma=jarr(Sig), mu=jarr(d["mu"]))
     key, z = stream(d)
     x = np.asarray(p.sample(key, n), dtype=float)
     ob.add("is_chol", np.ones(R), exact=True)
@@ -112,7 +116,7 @@ def run_impl(d):
         # component 0 must not depend on the other components' parameters
         Sig2 = [Sig[0]] + [[[v * 4 for v in row] for row in s] for s in Sig[1:]]
         mu2 = [d["mu"][0]] + [[v + 1 for v in m] for m in d["mu"][1:]]
-        p2 = I["pdf"].GaussianPDF(Sigma=jarr(Sig2), mu=jarr(mu2))
+        p2 = PDF(Sigma=jarr(Sig2), mu=jarr(mu2))
         y = np.asarray(p2.sample(key, n), dtype=float)
         lin.chk(fails, ["C19"], "component 0 depends on other components", "pdf.sample", y[:, 0], x[:, 0])
     return ob, fails
